@@ -72,7 +72,9 @@ pub fn barrier(v: &View, vd: &mut Verdict, prop: &str, awaiters: bool) {
             let invs = v.inv_of_msg(id);
             if o.ok() && o.end.is_some_and(|e| e < first_issued) && !failed {
                 class_a = true;
-                if invs.is_empty() || invs[0].exit.is_none() {
+                // (an invocation that exceeds a configured handler timeout is abandoned half-way: C11's matter)
+                let abandoned = v.rt[a].timeout.is_some_and(|(t, _)| v.work_of(id).is_some_and(|w| w.iter().map(|s| if let crate::model::Step::Sleep(x) = s { *x as u64 } else { 0 }).sum::<u64>() > t as u64));
+                if invs.is_empty() || (invs[0].exit.is_none() && !abandoned) {
                     vd.fail(
                         format!("{prop}/drain_lost/{:?}", o.what),
                         format!("actor {a}: message {id} ({:?} via {:?}) was accepted at {:?}, before the first stop request was issued at {first_issued}, but was not handled", o.what, o.via, o.end),
